@@ -9,7 +9,7 @@ MUST_ENTER = [('a5/projections/authalic.py', 'forward'), ('a5/projections/authal
               ('a5/core/coordinate_transforms.py', 'to_lonlat')]
 RULE = ('latitudes phi: uniform grid over [-pi/2, pi/2] (1e5 quick / 2e6 thorough points), log-spaced approaches 1e-16..1 to 0 and to '
         '+-pi/2, exact 0 and +-pi/2, neighbouring doubles. Per phi: |forward - closed form| <= 1e-10, oddness, '
-        '|inverse(forward)-phi| <= 1e-12, strict increase between grid neighbours (spacing >= 1e-9 relative), no decrease between '
+        '|inverse(forward)-phi| <= 1e-12, |inverse - exact inverse (bisection of the closed form)| <= 2e-10 with inverse(phi) called directly after forward(phi), forward repeated, strict increase between grid neighbours (spacing >= 1e-9 relative), no decrease between '
         'adjacent doubles beyond 4 ulp; same through from_lonlat / to_lonlat in degrees. Reference = exact WGS84 closed form in a '
         'pole-stable arrangement, re-validated against 50-digit mpmath at the start of the run. distinct = distinct phi; non-trivial = phi != 0, +-pi/2')
 ASSUMPTIONS = ['WGS84 ellipsoid (f = 1/298.257223563)', 'closed form relative error <= 1e-13 vs mpmath (self-test)']
@@ -44,6 +44,22 @@ def check_phi(A, geo, phi, ctx, full=True):
         ctx.fail('roundtrip', case, back=g, err=rt)
     if abs(fm + f) > 4 * math.ulp(max(abs(f), 1e-300)):
         ctx.fail('not_odd', case, f=f, f_neg=fm)
+    # the inverse direction on the same argument, directly after the forward call (and forward again after it): each must be
+    # accurate on its own (implied by forward accuracy 1e-10 + round trip 1e-12), whatever was computed just before
+    try:
+        gi = A.inverse(phi)
+        f2 = A.forward(phi)
+    except Exception as e:
+        ctx.fail('raises', case, exc=repr(e))
+        return f
+    sgn = 1.0 if phi >= 0 else -1.0
+    inv_ref = sgn * (math.pi / 2 - geo.geo_colat_from_auth(math.pi / 2 - abs(phi)))
+    ierr = abs(gi - inv_ref)
+    ctx.maxi('inverse_abs_err_rad', ierr, case)
+    if ierr > 2e-10:
+        ctx.fail('inverse_inaccurate', case, got=gi, want=inv_ref, err=ierr)
+    if f2 != f:
+        ctx.fail('forward_depends_on_previous_call', case, first=f, again=f2)
     if full:
         nx = math.nextafter(phi, math.inf)
         if nx <= math.pi / 2:
@@ -123,7 +139,9 @@ def run_shard(spec, ctx):
     else:
         for _ in range(spec['n']):
             k = ctx.rnd.random()
-            if k < 0.5:
+            if k < 0.02:
+                lat = ctx.rnd.choice((90.0, -90.0, 0.0, -0.0))
+            elif k < 0.5:
                 lat = ctx.rnd.uniform(-90, 90)
             elif k < 0.8:
                 lat = (90 - 10 ** ctx.rnd.uniform(-13, 1)) * ctx.rnd.choice((-1, 1))
